@@ -353,7 +353,11 @@ def _r22(ctx, prog, S, M, T):
         orig = prov.origin(expr, fc)
         labels = {o[0] for o in orig}
         bad = labels & {"USER", "FILE", "UNKNOWN", "DOC"}
-        if bad:
+        if bad == {"UNKNOWN"}:
+            # the value could not be traced (an unresolved call): an analysis gap, no foreign source was shown to reach the attribute
+            wit = [" <- ".join(ch[-3:]) for lab, ch in orig if lab in bad][:1]
+            ctx.error(key, "the origin of the relationship id was not traced (%s)" % wit)
+        elif bad:
             wit = [" <- ".join(ch[-3:]) for lab, ch in orig if lab in bad][:1]
             ctx.violation("R2.2", key, "relationship-id attribute is filled from %s (%s)" % (sorted(bad), wit), file=file, line=line)
         else:
